@@ -227,9 +227,9 @@ def mergeAdjacent : List Part → Part → List Part → E (List Part)
     if previous.hi = part.lo then
       if previous.strand != part.strand then throw "assertion"
       else match mergedRev with
-        -- `merged[-1] = FeatureLocation(previous.start, part.end, part.strand)`: the *previous part's*
-        -- start, not the start of what was merged so far (mirrored as written)
-        | _ :: more => mergeAdjacent (⟨previous.lo, part.hi, part.strand⟩ :: more) part rest
+        -- `merged[-1] = FeatureLocation(merged[-1].start, part.end, part.strand)` (after the repair D58; before it
+        -- the previous *part's* start was used and earlier abutting parts were lost)
+        | m :: more => mergeAdjacent (⟨m.lo, part.hi, part.strand⟩ :: more) part rest
         | [] => throw "assertion"
     else mergeAdjacent (part :: mergedRev) part rest
 
